@@ -4,5 +4,5 @@
 import sys
 sys.path[:0] = ['/repo' + "/pulser-core", '/repo' + "/pulser-simulation", "/verif"]
 from symx.replay import replay
-sys.exit(replay(check='checks.c09', kernel='atomic', shape={'device': 'virt_maxseq', 'prefix': 'pe', 'ops': ['add_g', 'declare_too_many']},
-                assignment={'d0': 1, 'a0': '0/1', 'det0': 0}, label='atomic:declare_too_many#1'))
+sys.exit(replay(check='checks.c09', kernel='atomic', shape={'device': 'virt_maxseq', 'prefix': 'p0', 'ops': ['add_g', 'declare_too_many']},
+                assignment={'d0': 1, 'a0': '4702873571728431/281474976710656', 'det0': 0}, label='atomic:declare_too_many#1'))
